@@ -112,6 +112,27 @@ def stage_locality_runtime(ctx):
                     st.violation('not-local-runtime', f'{name}: read_runtime_data()[{x.id_!r}] is {data0[x.id_]!r}, but {data1[x.id_]!r} when only the registers of OTHER sensors change (to {label}); '
                                                       f'own registers {sorted(own)} unchanged', dict(object=name, sensor=x.id_, others=label, own_registers=sorted(own)))
             for r in allregs: sim.set(r, base[r])
+        # no memory of earlier polls: after polls over other register contents, the same object reports for the current registers exactly what a FRESH
+        # object of the same model reports for them (zeros, all-ones "no value" words, random words; the timestamp and the fixed registers kept)
+        for label, fill in (('0x0000', lambda r: 0), ('0xffff', lambda r: 0xffff), ('random words', lambda r: rng.randrange(65536)), ('0x0000 again', lambda r: 0)):
+            for r in allregs:
+                sim.set(r, base[r] if (r in fixed or r < allregs[0] + 3) else fill(r))
+            try: old_obj = asyncio.run(inv.read_runtime_data())
+            except Exception as ex:      # noqa
+                st.violation('runtime-read-fails', f'{name}: read_runtime_data() raises {type(ex).__name__} on registers filled with {label}', dict(object=name, others=label)); continue
+            inv2, _ = mk()
+            inv2._sim = sim
+            SI.attach(inv2, sim)
+            asyncio.run(inv2.read_device_info())
+            try: new_obj = asyncio.run(inv2.read_runtime_data())
+            except Exception: continue      # noqa
+            st.case((name, 'history', label))
+            for k in sorted(set(old_obj) & set(new_obj)):
+                if not IM.same(old_obj[k], new_obj[k]) and repr(old_obj[k]) != repr(new_obj[k]) and not hasattr(old_obj[k], 'start_h'):
+                    st.violation('depends-on-earlier-polls', f'{name}: with all runtime registers at {label}, read_runtime_data()[{k!r}] is {old_obj[k]!r} on an object that polled other '
+                                                             f'contents before, but {new_obj[k]!r} on a fresh object reading the same registers', dict(object=name, sensor=k, registers=label))
+                    break
+        for r in allregs: sim.set(r, base[r])
     return st
 
 
